@@ -1,10 +1,106 @@
-import SpVerif.Model.Geom
+import SpVerif.Lemmas.LineBox
+/-!
+# C01 — the box-intersection test is geometrically exact for every geometry type
+
+Theorems about the kernel models of `Geom` (`intersection.py`), over exact integer coordinates; the semantic side ("shares a
+point with the closed box") is stated with rational points, so it covers every point of every segment.
+
+Proved here for every element and every box: points, multipoints (degenerate boxes included), lines, rings and multilines
+(boxes of positive width and height), missing / empty elements, independence of the corner order.
+For polygons and multipolygons the kernel is the same vertex / segment test over all rings (covered by `C01_polygon_boundary`)
+followed by a winding-number test of the four box corners; that the corner test decides "the box lies inside the region" needs
+the constancy of the winding number on a box that meets no ring, which is **not yet proved** (C02, DESIGN §3) — the polygon
+clause is therefore `_partial` and is compared against an independent exact oracle on every run.
+-/
 namespace SpVerif
 open Geom
+
+/-- `segments_intersect` is exact for two non-degenerate integer segments: True iff they share a point -/
+theorem C01_segmentsIntersect_iff (a0 a1 b0 b1 : Pt) (ha : a0 ≠ a1) (hb : b0 ≠ b1) :
+    segmentsIntersect a0 a1 b0 b1 = true ↔ SegMeet a0 a1 b0 b1 :=
+  segmentsIntersect_iff a0 a1 b0 b1 ha hb
+
+theorem orientBox_pos {bx : Box} (hx : bx.x0 ≠ bx.x1) (hy : bx.y0 ≠ bx.y1) :
+    (orientBox bx).x0 < (orientBox bx).x1 ∧ (orientBox bx).y0 < (orientBox bx).y1 := by
+  simp only [orientBox]
+  constructor <;> split <;> omega
+
+theorem zeroArea_false {bx : Box} (hx : bx.x0 ≠ bx.x1) (hy : bx.y0 ≠ bx.y1) : zeroAreaBox (orientBox bx) = false := by
+  have := orientBox_pos hx hy
+  simp only [zeroAreaBox, Bool.or_eq_false_iff, beq_eq_false_iff_ne]
+  omega
+
+/-- **lines and rings**: for every box of positive width and height (corners in any order) the test is True exactly when the
+closed point set of the line - its vertices and segments - shares a point with the closed box -/
+theorem C01_line_exact (bx : Box) (hx : bx.x0 ≠ bx.x1) (hy : bx.y0 ≠ bx.y1) (l : List Pt) :
+    lineIB bx l = true ↔ ∃ p, LinePoint l p ∧ InBoxQ (orientBox bx) p := by
+  obtain ⟨px, py⟩ := orientBox_pos hx hy
+  simp only [lineIB, zeroArea_false hx hy, Bool.false_eq_true, if_false]
+  exact lineIBcore_iff (orientBox bx) px py l
+
+/-- **multilines**: True exactly when some part shares a point with the closed box -/
+theorem C01_multiline_exact (bx : Box) (hx : bx.x0 ≠ bx.x1) (hy : bx.y0 ≠ bx.y1) (ls : List (List Pt)) :
+    multilineIB bx ls = true ↔ ∃ l ∈ ls, ∃ p, LinePoint l p ∧ InBoxQ (orientBox bx) p := by
+  obtain ⟨px, py⟩ := orientBox_pos hx hy
+  simp only [multilineIB, zeroArea_false hx hy, Bool.false_eq_true, if_false, List.any_eq_true]
+  constructor
+  · rintro ⟨l, hl, h⟩; exact ⟨l, hl, (lineIBcore_iff _ px py l).mp h⟩
+  · rintro ⟨l, hl, h⟩; exact ⟨l, hl, (lineIBcore_iff _ px py l).mpr h⟩
+
+/-- **points** (degenerate boxes included): True exactly when the point lies in the closed box -/
+theorem C01_point_exact (bx : Box) (p : Pt) : pointIB bx p = true ↔ InBoxQ (orientBox bx) ((p.1 : ℚ), (p.2 : ℚ)) := by
+  simp only [pointIB, inBox_iff]
+  exact ⟨inBoxQ_of_has, has_of_inBoxQ⟩
+
+/-- **multipoints** (degenerate boxes included): True exactly when one of the points lies in the closed box -/
+theorem C01_multipoint_exact (bx : Box) (ps : List Pt) :
+    multipointIB bx ps = true ↔ ∃ p ∈ ps, InBoxQ (orientBox bx) ((p.1 : ℚ), (p.2 : ℚ)) := by
+  simp only [multipointIB, List.any_eq_true, inBox_iff]
+  constructor
+  · rintro ⟨p, hp, h⟩; exact ⟨p, hp, inBoxQ_of_has h⟩
+  · rintro ⟨p, hp, h⟩; exact ⟨p, hp, has_of_inBoxQ h⟩
+
 /-- a missing or empty element never intersects: the kernels see no vertex, the bbox is NaN -/
 theorem C01_empty_false (b : Box) :
     lineIB b [] = false ∧ multilineIB b [] = false ∧ multipointIB b [] = false ∧
     polygonIB b [] = false ∧ polygonIB b [[]] = false ∧ multipolygonIB b [] = false ∧ multipolygonIB b [[]] = false := by
   refine ⟨?_, ?_, ?_, ?_, ?_, ?_, ?_⟩ <;>
     simp [lineIB, multilineIB, multipointIB, polygonIB, multipolygonIB, lineIBcore, polygonIBcore, bboxOf]
+
+/-- **corner order**: the answer depends on the box only through its oriented form, so all four ways of giving the corners
+agree, for every kind -/
+theorem C01_corner_order (x0 y0 x1 y1 : Int) :
+    orientBox ⟨x1, y0, x0, y1⟩ = orientBox ⟨x0, y0, x1, y1⟩ ∧ orientBox ⟨x0, y1, x1, y0⟩ = orientBox ⟨x0, y0, x1, y1⟩ ∧
+    orientBox ⟨x1, y1, x0, y0⟩ = orientBox ⟨x0, y0, x1, y1⟩ := by
+  simp only [orientBox, Box.mk.injEq]
+  refine ⟨⟨?_, ?_, ?_, ?_⟩, ⟨?_, ?_, ?_, ?_⟩, ⟨?_, ?_, ?_, ?_⟩⟩ <;>
+    first
+      | trivial
+      | omega
+      | (split <;> split <;> omega)
+      | (split <;> omega)
+
+/-- polygons, boundary part (partial): whenever a vertex of some ring lies in the box, or a ring segment meets a box edge,
+the polygon kernel answers True -/
+theorem C01_polygon_boundary_partial (b : Box) (rings : List (List Pt)) (bb : Box) (hbb : bboxOf rings.flatten = some bb)
+    (hout : bboxOutside bb b = false)
+    (h : (∃ v ∈ rings.flatten, BoxHas b v) ∨ ∃ r ∈ rings, ∃ s ∈ segs r, segBoxEdges b s = true) :
+    polygonIBcore b rings = true := by
+  unfold polygonIBcore
+  simp only [hbb, hout, Bool.false_eq_true, if_false]
+  split
+  · rfl
+  · split
+    · rfl
+    · next hv =>
+      rcases h with ⟨v, hv1, hv2⟩ | ⟨r, hr, s, hs, he⟩
+      · exact absurd (List.any_eq_true.mpr ⟨v, hv1, (inBox_iff b v).mpr hv2⟩) hv
+      · have : rings.any (fun r => (segs r).any (segBoxEdges b)) = true :=
+          List.any_eq_true.mpr ⟨r, hr, List.any_eq_true.mpr ⟨s, hs, he⟩⟩
+        simp [this]
+
+/-! non-vacuity: a line whose only contact with the box is the interior of a segment passing through a box corner -/
+example : lineIB ⟨3, 3, 1, 1⟩ [(0, 1), (1, 0)] = false ∧ lineIB ⟨3, 3, 1, 1⟩ [(0, 2), (2, 0)] = true ∧
+    lineIB ⟨1, 1, 3, 3⟩ [(0, 2), (2, 4)] = true := by decide
+
 end SpVerif
